@@ -19,6 +19,7 @@ func propC04(c *Ctx) {
 	c.ruleAccessorPair()
 	c.ruleEmitterTaint()
 	c.rulePseudoTotal()
+	c.ruleFormatFollowsNotation()
 	c.ruleRegexChecked()
 	c.rulePathVarTypes()
 	c.ruleDepCalls("C04-DEP-CALLS")
@@ -33,6 +34,8 @@ func propC04(c *Ctx) {
 	// ToJson and ToJsonIndent give the same document only if serialising changes nothing but once-only lazy state
 	c.ruleMarshalPurity("C04-MARSHAL-PURITY")
 	c.ruleOnceGuardedReads("C04-ONCE-GUARDED-READS")
+	c.ruleDeadErrorStores("C04-DEAD-ERROR-STORE")
+	c.ruleRegexExampleProbed("C04-REGEX-EXAMPLE-PROBED")
 }
 
 func (c *Ctx) ruleAccessorPair() {
@@ -423,3 +426,103 @@ func (c *Ctx) rulePathVarTypes() {
 }
 
 var _ = token.NoPos
+
+// ---------- the serialise format of a body is the one its notation gives ----------
+
+// ruleFormatFollowsNotation: which schema object is built for a body is decided on the serialise format, which
+// document is written for it on the notation. The two agree as long as the format is the value SchemaSerializeFormat
+// gives for that notation. Every variable of type SerializeFormat in the library is therefore assigned exactly once,
+// by that function (or is a parameter handed on unchanged), and where a call passes a format and a notation together
+// the format was computed from that very notation.
+func (c *Ctx) ruleFormatFollowsNotation() {
+	r := c.R
+	r.Rule("C04-FORMAT-FOLLOWS-NOTATION", "every local of type catalog.SerializeFormat is defined once, by SchemaSerializeFormat(n) (or is a parameter that is not reassigned); at every call that passes a SerializeFormat together with a SchemaNotation, n is the notation passed: a format set by hand for some case makes NewHTTPResponseBody build a schema object of one kind under the notation of another, which cannot be serialised", 2)
+	conv := c.P.LookupFunc("catalog", "SchemaSerializeFormat")
+	if conv == nil {
+		r.Undecided("C04-FORMAT-FOLLOWS-NOTATION", "anchor", "catalog.SchemaSerializeFormat not found", "")
+		return
+	}
+	isFmt := func(t types.Type) bool { return namedType(t) == prog.ModulePath+"/catalog.SerializeFormat" }
+	isNot := func(t types.Type) bool { return namedType(t) == prog.ModulePath+"/notation.SchemaNotation" }
+	n := 0
+	for _, f := range c.libFns() {
+		pk := f.Pkg
+		if f.Obj == conv {
+			continue
+		}
+		// assignments to format variables
+		ast.Inspect(f.Decl.Body, func(nd ast.Node) bool {
+			as, ok := nd.(*ast.AssignStmt)
+			if !ok {
+				return true
+			}
+			for i, l := range as.Lhs {
+				id, ok := l.(*ast.Ident)
+				if !ok || id.Name == "_" {
+					continue
+				}
+				obj := pk.TypesInfo.Defs[id]
+				if obj == nil {
+					obj = pk.TypesInfo.Uses[id]
+				}
+				if obj == nil || !isFmt(obj.Type()) {
+					continue
+				}
+				n++
+				key := fmt.Sprintf("%s | %s assigned", f.Name(), id.Name)
+				var rhs ast.Expr
+				if len(as.Rhs) == 1 {
+					rhs = as.Rhs[0]
+				} else if i < len(as.Rhs) {
+					rhs = as.Rhs[i]
+				}
+				call, _ := ast.Unparen(rhs).(*ast.CallExpr)
+				if call != nil && callee(pk, call) == conv && as.Tok == token.DEFINE {
+					r.OkTrivial("C04-FORMAT-FOLLOWS-NOTATION", key, "defined by SchemaSerializeFormat", c.pos(as.Pos()))
+				} else {
+					r.Bad("C04-FORMAT-FOLLOWS-NOTATION", key, "a serialise format is set by hand ("+exprString(rhs)+") instead of being the format of the notation: the schema object built for the body (chosen by the format) and the notation written for it no longer belong together", c.pos(as.Pos()))
+				}
+			}
+			return true
+		})
+		// calls passing both
+		ast.Inspect(f.Decl.Body, func(nd ast.Node) bool {
+			call, ok := nd.(*ast.CallExpr)
+			if !ok {
+				return true
+			}
+			var fa, na ast.Expr
+			for _, a := range call.Args {
+				t := pk.TypesInfo.TypeOf(a)
+				if t == nil {
+					continue
+				}
+				if isFmt(t) {
+					fa = a
+				}
+				if isNot(t) {
+					na = a
+				}
+			}
+			if fa == nil || na == nil {
+				return true
+			}
+			n++
+			key := fmt.Sprintf("%s | %s(format, notation)", f.Name(), exprString(call.Fun))
+			if paramIndexOf(f, fa) >= 0 && paramIndexOf(f, na) >= 0 && !paramAssigned(f, fa) && !paramAssigned(f, na) {
+				r.OkTrivial("C04-FORMAT-FOLLOWS-NOTATION", key, "both handed on from the parameters", c.pos(call.Pos()))
+				return true
+			}
+			dc, _ := definingCall(f, fa)
+			if dc != nil && callee(pk, dc) == conv && len(dc.Args) == 1 && c.stableExpr(f, dc.Args[0], nil) == c.stableExpr(f, na, nil) {
+				r.Ok("C04-FORMAT-FOLLOWS-NOTATION", key, "the format is SchemaSerializeFormat of the notation that is passed", c.pos(call.Pos()))
+			} else {
+				r.Bad("C04-FORMAT-FOLLOWS-NOTATION", key, "the format passed is not (only) SchemaSerializeFormat of the notation passed with it", c.pos(call.Pos()))
+			}
+			return true
+		})
+	}
+	if n == 0 {
+		r.Undecided("C04-FORMAT-FOLLOWS-NOTATION", "sites", "no variable of type SerializeFormat found", "")
+	}
+}
